@@ -43,9 +43,9 @@ CHECKS = {
             "Exploration: random words, codeword + >t errors, constructed words at distance exactly t from another codeword, zero-syndrome-prefix words; whenever decode_error returns Ok the result must be a codeword by independent syndromes and by re-encoding.",
             "Trusted: R4 arithmetic and linear solver.",
             "DESIGN.md §5 C09"),
-    "C10": ("differential test against a reference minimal-length search with verified witness streams; fixed corpus with exact known-finding list",
+    "C10": ("differential test against a reference minimal-length search with verified witness streams; fixed corpus with exact known-finding list; planner cost model cross-examined through hook H3 (price of the witness path); exact-fit generator; libFuzzer stage in thorough",
             "Exploration: crate's symbol choice is compared with ASCII/Base256 bounds and with a reference DP over standard forms; a violation needs a witness stream accepted by two independent decoders. Known non-exhaustiveness of the planner is listed input by input on a fixed corpus.",
-            "Trusted: R2/R3 (a shorter encoding only counts with a witness both decoders accept).",
+            "Trusted: R2/R3 (a shorter encoding only counts with a witness both decoders accept); hooks H1 (planner statistics) and H3 (forced-path pricing) for the attribution of seeded-exploration cases to the open finding D13.",
             "DESIGN.md §5 C10"),
     "C11": ("robustness property-based test of all encoding entry points in two build profiles, error classification oracle",
             "Exploration: no unwind, SymbolListEmpty iff the list is empty, every other refusal TooMuchOrIllegalData, over inputs x lists (incl. empty/single) x 64 mode subsets x macro x FNC1 x ECI.",
@@ -108,6 +108,8 @@ manifest = {
     "engines": [
         {"name": "dmcheck", "path": "engine/dmcheck", "serves_properties": sorted(CLAIMED),
          "kind_free_text": "property-based testing engine: proptest strategies sharded over 16 threads, enumerated sub-domains, shrinking to replay files, class histograms in evidence"},
+        {"name": "dmfuzz", "path": "engine/fuzz", "serves_properties": ["C01", "C02", "C03", "C04", "C05", "C08", "C09", "C10", "C11", "C12", "C13", "C14", "C16", "C17", "C18", "C19"],
+         "kind_free_text": "cargo-fuzz / libFuzzer targets (enc, stream, rs, bitmap, script) that decode bytes into the same case structs and call the same property functions; thorough tier runs a campaign per property, both tiers replay the committed corpus /verif/corpus/<target>"},
         {"name": "refimpl", "path": "engine/refimpl", "serves_properties": sorted(CLAIMED),
          "kind_free_text": "independent oracles written from ISO/IEC 16022 / 21471: data codec, GF(256)/RS, Annex F placement, symbol table, rasteriser, charsets"},
     ],
